@@ -406,4 +406,51 @@ mutual
     | k :: ks => dupIn P k || dupInL P ks
 end
 
+/-! ### `_pending_expr`: two equal expressions under one parent job are evaluated once (no second job)
+
+`Scheduler._evaluate_apply` keeps, per parent job and until that job is finalized, the promise of every expression it
+has started; an equal expression met later under the same parent - eagerly, or in a lazily evaluated site such as a
+`cond` branch - re-uses it whether or not the first evaluation has already ended.  `evalM` is `evalC` with that memo;
+the driver uses it for workflows with such duplicates (`dupInL`), for which the theorems about `Ev` do not speak. -/
+
+abbrev Memo := List (Expr × HV)
+
+def memoGet : Memo → Expr → Option HV
+  | [], _ => none
+  | (e', v) :: r, e => if e' = e then some v else memoGet r e
+
+def evalM (P : Prog) : Nat → Memo → Expr → Option (HV × List JT × Memo)
+  | 0, _, _ => none
+  | _ + 1, m, .lit v => some (v, [], m)
+  | n + 1, m, .add a b =>
+    match memoGet m (.add a b) with
+    | some v => some (v, [], m)
+    | none =>
+      match evalM P n m a with
+      | some (va, ka, m1) =>
+        match evalM P n m1 b with
+        | some (vb, kb, m2) => some (addV va vb, ka ++ kb, (.add a b, addV va vb) :: m2)
+        | none => none
+      | none => none
+  | n + 1, m, .call t a =>
+    match memoGet m (.call t a) with
+    | some v => some (v, [], m)
+    | none =>
+      match evalM P n m a with
+      | some (va, ka, m1) =>
+        match evalM P n [] (P.body t va) with          -- a new parent job: its own `_pending_expr`
+        | some (r, kids, _) => some (r, JT.node t [va] [va] r true kids :: ka, (.call t a, r) :: m1)
+        | none => none
+      | none => none
+  | n + 1, m, .cond c a b =>
+    match memoGet m (.cond c a b) with
+    | some v => some (v, [], m)
+    | none =>
+      match evalM P n m c with
+      | some (vc, kc, m1) =>
+        match evalM P n m1 (if truthy vc then a else b) with
+        | some (v, k, m2) => some (v, kc ++ k, (.cond c a b, v) :: m2)
+        | none => none
+      | none => none
+
 end RedunModel.Timing
